@@ -200,6 +200,12 @@ func setSimpleHeaders(c fiber.Ctx, allowOrigin, maxAge string, cfg Config) {
 		c.Set(fiber.HeaderAccessControlAllowOrigin, allowOrigin)
 	}
 
+	// Another instance earlier in the chain (e.g. on the parent group) may have allowed credentials
+	// for the origin it answered with; the wildcard must never be paired with them
+	if allowOrigin == "*" {
+		c.Response().Header.Del(fiber.HeaderAccessControlAllowCredentials)
+	}
+
 	// Set MaxAge if set
 	if cfg.MaxAge > 0 {
 		c.Set(fiber.HeaderAccessControlMaxAge, maxAge)
